@@ -80,6 +80,10 @@ impl<S: Read + Write> Client<S> {
     /// ```
     pub fn write<T: 'static>(&mut self, message: T) -> RdpResult<()>
     where T: Message {
+        // the TPKT length field is 16 bits wide and includes the 4 bytes header
+        if message.length() > (u16::MAX as u64) - 4 {
+            return Err(Error::RdpError(RdpError::new(RdpErrorKind::InvalidSize, "Message too large for a TPKT frame")))
+        }
         self.transport.write(
             &trame![
                 tpkt_header(message.length() as u16),
